@@ -142,7 +142,7 @@ def run(c, facts, tier):
             f = facts.fns[fn]
             # locate the iteration in the syntax: a method chain on a hash-typed field/local that contains iter/keys/values/…
             chains = []
-            for x in find_all(f.body, lambda x: x.get("k") == "mcall"):
+            for x in find_all(f.body, lambda x: x.get("k") == "mcall") + [y for a_ in (f.node.get("_asserts") or []) for y in find_all(a_, lambda x: x.get("k") == "mcall")]:
                 base, ch = rx.method_chain(x)
                 ms = [mm for mm, _, _ in ch]
                 if any(mm in ("iter", "keys", "values", "into_iter", "drain", "iter_mut", "values_mut", "into_keys", "into_values") for mm in ms):
